@@ -19,7 +19,7 @@ func init() {
 		Run: c18,
 		Explanation: "Decides, on every path and for every literal of the RBAC manager: (R18.1) no role Apply without an acknowledged validation and the empty-rejected edge; (R18.2) family members are merged only on the OrgDiffer.Differs==false edge and Differs fails closed; " +
 			"(R18.3) permission requests flow only into the system role; (R18.4) the hard-coded baseline is within the set the property enumerates; (R18.5) rendered rules are built only from the CRD references / XRD names plus constant suffixes, DefinedResources keeps only apiextensions.k8s.io CustomResourceDefinitions; " +
-			"(R18.6) the allow tree only answers true through a child keyed by the request segment or the wildcard, rejections are collected for every expanded request, Rule.path carries every field; (R18.7) roles and bindings are applied with a controller guard keyed on the owner's UID.",
+			"(R18.6) the allow tree only answers true through a child keyed by the request segment or the wildcard, rejections are collected for every expanded request, Rule.path carries every field; (R18.7) roles and bindings are applied with a controller guard keyed on the owner's UID. R18.6 also requires that the allow tree consulted is a newNode() of the same call, filled after the ClusterRole was read.",
 		NotDecided:  []string{"agreement of the allow tree with Kubernetes' own 'covers' relation for all rule pairs", "contents of the allow-list ClusterRole", "semantics of go-containerregistry reference parsing"},
 		Assumptions: []string{"rbacv1.PolicyRule semantics as documented", "the Applicator enforces MustBeControllableBy"},
 	})
